@@ -211,7 +211,7 @@ const REGRESSIONS: [&str; 6] = [
 ];
 
 pub fn def(tier: Tier) -> CheckDef {
-    let rounds = tier.pick(5, 80);
+    let rounds = tier.pick(40, 400);
     CheckDef {
         id: "C16",
         level: "exploration",
@@ -221,6 +221,7 @@ pub fn def(tier: Tier) -> CheckDef {
         ],
         idle_limit_s: 300,
         needs_cli: false,
+        fuzz: None,
         parts: vec![
             Part {
                 name: "regressions",
@@ -255,7 +256,7 @@ pub fn def(tier: Tier) -> CheckDef {
                 run: Box::new(|ctx, r| ctx.prop("parsed", r, 1000, 600, parsed_case)),
                 replay: Some(Box::new(|ctx, inp| match inp {
                     ReplayInput::Choices(c) => parsed_case(ctx, &mut Ch::new(c)),
-                    ReplayInput::Text(_) => Err(Failure::new("this part replays from choices", "")),
+                    _ => Err(Failure::new("this part replays from choices", "")),
                 })),
             },
         ],
